@@ -365,6 +365,12 @@ def check_pure(prop, tier, seed, replay, harness, mode, gen_lines, rule, assumpt
     t0 = time.time()
     violations = []
     notes = []
+    tie = dict(modules=[], obligations=0, discharged=0, theorems=[], broken=[], index=[])
+    if not replay:
+        tie = vlib.tie_check(prop)
+        for mod, what in tie['broken']:
+            path = vlib.write_replay(prop, tier, seed, 'tie-%s' % mod, ['verdict tie-broken', 'broken ' + what.split('\n')[0]], what.split('\n'))
+            violations.append((path, True))
     try:
         tmodel = vlib.build_lean(prop)
     except vlib.BuildError as e:
@@ -452,12 +458,18 @@ def check_pure(prop, tier, seed, replay, harness, mode, gen_lines, rule, assumpt
             path = vlib.write_replay(prop, tier, seed, 'crash', ['verdict violation', 'implementation crashed: ' + e], [l])
             violations.append((path, False))
     wall = time.time() - t0
+    if any(not nf for _, nf in violations):
+        for pth, nf in violations:
+            if nf:
+                notes.append('tie broken (%s) — a failing input was found, see the other replays' % os.path.basename(pth))
+        violations = [(pth, nf) for pth, nf in violations if not nf]
     cov = dict(
-        obligations=audit['obligations'], discharged=audit['discharged'],
+        obligations=audit['obligations'] + tie['obligations'], discharged=audit['discharged'] + tie['discharged'],
+        translated_functions=tie['index'],
         checker_cmd='cd lean && lake build && lake env lean .lake/audit_%s.lean  (#print axioms of every theorem of Props/%s.lean)%s'
                     % (prop, prop, '; lake env leanchecker TrompModel.Props.%s' % prop if tier == 'thorough' else ''),
         trusted_base=TRUSTED_BASE + (extra_trusted or []),
-        theorems=[dict(name=n, axioms=a) for n, a in audit['theorems']],
+        theorems=[dict(name=n, axioms=a) for n, a in audit['theorems'] + tie['theorems']],
         programs=len(lines), traces_validated_against_impl=len(lines) - len(bad), disagreements_checked=len(bad),
         evaluations=len(lines), distinct_nontrivial=len(distinct), rule=rule,
         samples=[lines[i] for i in ([0, len(lines) // 3, len(lines) // 2, len(lines) - 1] if lines else [])],
